@@ -9,6 +9,9 @@ from .symexec import Exec, Env, MUTATORS
 from . import contracts as C
 
 
+_ALL_OBJSORTS: list = []
+
+
 class ObjSort(Sort):
   """Instances of a python class with identity; fields live in the heap."""
   _cache: dict = {}
@@ -21,6 +24,7 @@ class ObjSort(Sort):
     self.protected = tuple(protected)   # fields guarded by the object's monitor
     self.monitor_inv = tuple(monitor_inv)
     self._lits = {}
+    _ALL_OBJSORTS.append(self)
 
   def z3(self):
     if self.name not in ObjSort._cache:
@@ -88,6 +92,9 @@ def obj_getattr(self, b, attr):
     if fs.mutable and not self.spec_mode:
       return Box(('field', osort, attr, b.t))
     return SV(fs, z3.Select(self.heap_arr(osort, attr), b.t))
+  hooks = getattr(osort, 'attr_hooks', None)
+  if hooks and attr in hooks:
+    return hooks[attr](self, b)
   for cls in osort.pytypes:
     key = f'{cls}.{attr}'
     if key in self.spec.bindings:
@@ -127,6 +134,19 @@ def loc_of(self, text, env):
 
 
 def havoc_modifies(self, sp, env):
+  for fld, pred in (getattr(sp, 'frame_except', None) or {}).items():
+    # the callee may write every cell of this field selected by `pred(r)`; all others keep their value
+    cls, f = fld.split('.')
+    osort = next(o for k, o in list(self.heap_sorts.items()) + [((x.name, None), x) for x in _ALL_OBJSORTS] if o.name == cls)
+    before = self.heap_arr(osort, f)
+    after = z3.Const(fresh_name(f'H!{cls}.{f}'), before.sort())
+    r = z3.Const(fresh_name('r'), osort.z3())
+    e = Env(env)
+    e.set('r', SV(osort, r))
+    sel = self.eval_spec(pred, e)
+    self.heap[(cls, f)] = after
+    self.heap_written.add((cls, f))
+    self.assume(z3.ForAll([r], z3.Implies(z3.Not(sel), z3.Select(after, r) == z3.Select(before, r))))
   for m in sp.modifies:
     osort, f, ref = self.loc_of(m, env)
     nv = osort.fields[f].const(f)
@@ -161,16 +181,20 @@ def havoc_heap(self, body):
       elif isinstance(n, ast.With):
         # monitor (re)acquisition inside the loop havocs the protected fields anyway
         pass
+  keys = []
   for (cls, f), arr in list(self.heap.items()):
     if f in names:
       osort = self.heap_sorts[(cls, f)]
       self.heap[(cls, f)] = z3.Const(fresh_name(f'H!{cls}.{f}'), arr.sort())
       self.heap_written.add((cls, f))
+      keys.append((cls, f))
   self._loop_havoc_fields = names
+  return keys
 
 
-def post_frame(self, env):
-  """Frame obligation: heap cells outside the declared modifies set are unchanged."""
+def frame_formulas(self, keys=None):
+  """For each written heap field: cells outside the declared modifies / frame_except set equal
+  their entry value."""
   declared = {}
   saved_heap = self.heap
   self.heap = self.old_heap
@@ -180,16 +204,37 @@ def post_frame(self, env):
       declared.setdefault((osort.name, f), []).append(ref)
   finally:
     self.heap = saved_heap
-  for key in sorted(self.heap_written):
+  out = []
+  for key in sorted(self.heap_written if keys is None else keys):
+    if key not in self.heap:
+      continue
     now, before = self.heap[key], self.old_heap.get(key, self.heap0.get(key))
     if z3.eq(now, before):
       continue
     osort = self.heap_sorts[key]
     r = z3.Const(fresh_name('r'), osort.z3())
     excl = [r != x for x in declared.get(key, [])]
+    custom = (getattr(self.spec, 'frame_except', None) or {}).get(f'{key[0]}.{key[1]}')
+    if custom:
+      # cells described by a predicate over the reference `r` (evaluated in the entry state)
+      e = Env(self.old_env)
+      e.set('r', SV(osort, r))
+      saved_heap2 = self.heap
+      self.heap = self.old_heap
+      try:
+        excl.append(z3.Not(self.eval_spec(custom, e)))
+      finally:
+        self.heap = saved_heap2
     fs = osort.fields[key[1]]
     same = self.sort_eq(fs, z3.Select(now, r), z3.Select(before, r))
-    self.oblige(z3.ForAll([r], z3.Implies(z3.And(*excl), same) if excl else same), f'frame[{key[0]}.{key[1]}]')
+    out.append((key, z3.ForAll([r], z3.Implies(z3.And(*excl), same) if excl else same)))
+  return out
+
+
+def post_frame(self, env):
+  """Frame obligation: heap cells outside the declared modifies set are unchanged."""
+  for key, f in self.frame_formulas():
+    self.oblige(f, f'frame[{key[0]}.{key[1]}]')
 
 
 def init_heap(self, env, old_env):
@@ -227,6 +272,7 @@ Exec.loc_of = loc_of
 Exec.havoc_modifies = havoc_modifies
 Exec.havoc_heap = havoc_heap
 Exec.post_frame = post_frame
+Exec.frame_formulas = frame_formulas
 Exec.init_heap = init_heap
 Exec.monitor_enter = monitor_enter
 Exec.monitor_exit = monitor_exit
@@ -275,3 +321,91 @@ def check_transitions(self, owner, why):
 
 Exec.check_transitions = check_transitions
 Exec.monitor_method = monitor_method
+
+
+# ---- allocation -------------------------------------------------------------------------------------
+def alloc_arr(self, osort):
+  key = (osort.name, '$alloc')
+  if key not in self.heap:
+    arr = z3.Const(f'H!{osort.name}.$alloc!0', z3.ArraySort(osort.z3(), z3.BoolSort()))
+    self.heap[key] = arr
+    self.heap0.setdefault(key, arr)
+    if self.old_heap is not None:
+      self.old_heap.setdefault(key, arr)
+    self.heap_sorts[key] = osort
+  return self.heap[key]
+
+
+def refs_in(self, sort, t, cond=None, depth=2):
+  """(condition, ObjSort, ref term, bound vars) for every object reference stored in a value."""
+  cond = [] if cond is None else cond
+  out = []
+  if isinstance(sort, ObjSort):
+    c = list(cond)
+    if sort.nullable:
+      c.append(t != sort.literal(None))
+    out.append((c, sort, t, []))
+  elif isinstance(sort, MapOf) and depth > 0:
+    k = z3.Const(fresh_name('k'), sort.key.z3())
+    for c, s, r, bv in refs_in(self, sort.val, sort.get(t, k), cond + [sort.has(t, k)], depth - 1):
+      out.append((c, s, r, [k] + bv))
+  elif isinstance(sort, SeqOf) and depth > 0:
+    i = z3.Int(fresh_name('i'))
+    for c, s, r, bv in refs_in(self, sort.elem, sort.get(t, i), cond + [i >= 0, i < sort.len(t)], depth - 1):
+      out.append((c, s, r, [i] + bv))
+  elif isinstance(sort, Union) and depth > 0:
+    for cname, ctor in sort.ctors.items():
+      for fn, fs in ctor.fields:
+        if fs == 'SELF':
+          continue
+        for c, s, r, bv in refs_in(self, fs, sort.acc(cname, fn, t), cond + [sort.is_(cname, t)], depth - 1):
+          out.append((c, s, r, bv))
+  return out
+
+
+def assume_allocated(self, sort, t):
+  """everything reachable in one step from a live value is allocated"""
+  for c, s, r, bv in refs_in(self, sort, t):
+    f = z3.Implies(z3.And(*c), z3.Select(self.alloc_arr(s), r)) if c else z3.Select(self.alloc_arr(s), r)
+    self.assume(z3.ForAll(bv, f) if bv else f)
+
+
+def alloc(self, osort, hint='new'):
+  """A fresh object: its reference differs from every allocated reference."""
+  r = z3.Const(fresh_name(hint + '!' + osort.name), osort.z3())
+  a = self.alloc_arr(osort)
+  self.assume(z3.Not(z3.Select(a, r)))
+  if osort.nullable:
+    self.assume(r != osort.literal(None))
+  self.heap[(osort.name, '$alloc')] = z3.Store(a, r, True)
+  return SV(osort, r)
+
+
+_orig_heap_arr = heap_arr
+
+
+def heap_arr_closed(self, osort, f):
+  """like heap_arr, and on first use states that the entry heap is closed under this field:
+  allocated objects only point to allocated objects"""
+  key = (osort.name, f)
+  first = key not in self.heap
+  arr = _orig_heap_arr(self, osort, f)
+  if first and f != '$alloc':
+    r = z3.Const(fresh_name('r'), osort.z3())
+    for c, s, ref, bv in refs_in(self, osort.fields[f], z3.Select(arr, r)):
+      a0 = self.heap0.get((s.name, '$alloc'))
+      if a0 is None:
+        self.alloc_arr(s)
+        a0 = self.heap0[(s.name, '$alloc')]
+      own0 = self.heap0.get((osort.name, '$alloc'))
+      if own0 is None:
+        self.alloc_arr(osort)
+        own0 = self.heap0[(osort.name, '$alloc')]
+      self.axioms.append(z3.ForAll([r] + bv, z3.Implies(z3.And(z3.Select(own0, r), *c), z3.Select(a0, ref))))
+  return arr
+
+
+Exec.alloc_arr = alloc_arr
+Exec.alloc = alloc
+Exec.assume_allocated = assume_allocated
+Exec.heap_arr = heap_arr_closed
